@@ -247,6 +247,9 @@ func updatePath(v Value, path []int, nv Value) Value {
 func (e *Exec) store(p Ptr, nv Value) {
 	p = e.derefCheck(p)
 	e.noteWrite(p.Obj)
+	if e.sub != nil && p.Obj.ID <= e.sub.objBase {
+		panic(subAbort{"store to outer object"})
+	}
 	if !e.initMode && p.Obj.Frozen() {
 		e.unsupported("store to frozen package state %s", p.Obj.Tag)
 	}
@@ -440,6 +443,9 @@ func (e *Exec) callValue(caller *frame, fv Value, args []Value, site ssa.Instruc
 		}
 		return e.callFn(caller, f.Fn, args, f.Env)
 	case *ssa.Builtin:
+		for i := range args {
+			args[i] = e.res(args[i])
+		}
 		return e.callBuiltin(caller, f, args, site)
 	}
 	panic(fmt.Sprintf("callValue: %T", fv))
@@ -451,6 +457,11 @@ func (e *Exec) callFn(caller *frame, fn *ssa.Function, args []Value, env []Value
 		name = o.String()
 	}
 	if in, ok := e.P.intrinsics[name]; ok {
+		if !e.P.guardAware[name] {
+			for i := range args {
+				args[i] = e.res(args[i])
+			}
+		}
 		if r, handled := in(e, caller, fn, args); handled {
 			return r
 		}
@@ -485,6 +496,16 @@ func (e *Exec) callFn(caller *frame, fn *ssa.Function, args []Value, env []Value
 	if fn.Blocks == nil {
 		e.unsupported("external function %s", name)
 	}
+	if e.summarisable(fn, args) {
+		if r, ok := e.summarise(caller, fn, args); ok {
+			return r
+		}
+	}
+	return e.callFnBody(caller, fn, args, env)
+}
+
+func (e *Exec) callFnBody(caller *frame, fn *ssa.Function, args []Value, env []Value) Value {
+	name := fn.String()
 	e.depth++
 	if e.depth > e.MaxDepth {
 		panic(pathEnd{Kind: "bound", Msg: fmt.Sprintf("call depth > %d at %s", e.MaxDepth, name)})
@@ -537,6 +558,9 @@ func (e *Exec) runFrame(fr *frame) {
 	}()
 	for {
 		blk := fr.block
+		if ForkStats != nil {
+			e.curFn = fr.fn.String()
+		}
 	instrs:
 		for _, in := range blk.Instrs {
 			e.steps++
@@ -627,9 +651,70 @@ func (e *Exec) prepareCall(fr *frame, c *ssa.CallCommon) (Value, []Value) {
 func (e *Exec) asIface(v Value) Iface {
 	switch x := v.(type) {
 	case Iface:
-		return x
+		return e.res(x).(Iface)
 	}
 	panic(fmt.Sprintf("asIface: %T", v))
+}
+
+// res resolves the nil-guard of a guarded slice / map / interface / pointer by forking.
+func (e *Exec) res(v Value) Value {
+	switch x := v.(type) {
+	case Slice:
+		if x.Guard != nil {
+			if e.Branch(x.Guard) {
+				x.Guard = nil
+				return x
+			}
+			return Slice{}
+		}
+	case MapRef:
+		if x.Guard != nil {
+			if e.Branch(x.Guard) {
+				x.Guard = nil
+				return x
+			}
+			return MapRef{}
+		}
+	case Iface:
+		if x.Guard != nil {
+			if e.Branch(x.Guard) {
+				x.Guard = nil
+				return x
+			}
+			return Iface{}
+		}
+	}
+	return v
+}
+
+func (fr *frame) use(v ssa.Value) Value { return fr.e.res(fr.get(v)) }
+
+func sliceNil(s Slice) *T {
+	if s.Obj == nil && s.Abs == nil {
+		return sym.True
+	}
+	if s.Guard != nil {
+		return sym.Not(s.Guard)
+	}
+	return sym.False
+}
+func mapNil(m MapRef) *T {
+	if m.M == nil {
+		return sym.True
+	}
+	if m.Guard != nil {
+		return sym.Not(m.Guard)
+	}
+	return sym.False
+}
+func ifaceNil(i Iface) *T {
+	if i.T == nil {
+		return sym.True
+	}
+	if i.Guard != nil {
+		return sym.Not(i.Guard)
+	}
+	return sym.False
 }
 
 func (e *Exec) visit(fr *frame, instr ssa.Instruction) int {
@@ -647,11 +732,11 @@ func (e *Exec) visit(fr *frame, instr ssa.Instruction) int {
 	case *ssa.ChangeType:
 		fr.set(in, fr.get(in.X))
 	case *ssa.Convert:
-		fr.set(in, e.conv(in.Type(), in.X.Type(), fr.get(in.X)))
+		fr.set(in, e.conv(in.Type(), in.X.Type(), fr.use(in.X)))
 	case *ssa.MultiConvert:
-		fr.set(in, e.conv(in.Type(), in.X.Type(), fr.get(in.X)))
+		fr.set(in, e.conv(in.Type(), in.X.Type(), fr.use(in.X)))
 	case *ssa.SliceToArrayPointer:
-		s := fr.get(in.X).(Slice)
+		s := fr.use(in.X).(Slice)
 		fr.set(in, Ptr{Obj: s.Obj, Path: nil})
 		if s.Off != 0 {
 			e.unsupported("slice-to-array-pointer with offset")
@@ -714,7 +799,7 @@ func (e *Exec) visit(fr *frame, instr ssa.Instruction) int {
 		mt := in.Type().Underlying().(*types.Map)
 		fr.set(in, MapRef{M: e.newMap(mt)})
 	case *ssa.Range:
-		fr.set(in, e.rangeIter(fr.get(in.X), in.X.Type()))
+		fr.set(in, e.rangeIter(fr.use(in.X), in.X.Type()))
 	case *ssa.Next:
 		fr.set(in, e.next(fr.get(in.Iter), in))
 	case *ssa.FieldAddr:
@@ -729,9 +814,9 @@ func (e *Exec) visit(fr *frame, instr ssa.Instruction) int {
 	case *ssa.Lookup:
 		fr.set(in, e.lookup(fr, in))
 	case *ssa.MapUpdate:
-		e.mapUpdate(fr.get(in.Map).(MapRef), fr.get(in.Key), fr.get(in.Value))
+		e.mapUpdate(fr.use(in.Map).(MapRef), fr.get(in.Key), fr.get(in.Value))
 	case *ssa.TypeAssert:
-		fr.set(in, e.typeAssert(fr.get(in.X), in))
+		fr.set(in, e.typeAssert(fr.use(in.X), in))
 	case *ssa.MakeClosure:
 		var env []Value
 		for _, b := range in.Bindings {
@@ -1012,11 +1097,14 @@ func (e *Exec) equal(t types.Type, x, y Value) *T {
 		return sym.And(an, bn)
 	case MapRef:
 		b := y.(MapRef)
+		if a.M == nil || b.M == nil {
+			return sym.And(mapNil(a), mapNil(b))
+		}
 		return sym.BoolC(a.M == b.M)
 	case Slice:
 		b := y.(Slice)
 		if a.Obj == nil && a.Abs == nil || b.Obj == nil && b.Abs == nil {
-			return sym.BoolC(a.Obj == nil && a.Abs == nil && b.Obj == nil && b.Abs == nil)
+			return sym.And(sliceNil(a), sliceNil(b))
 		}
 		e.unsupported("slice comparison")
 	case *Closure:
@@ -1043,6 +1131,10 @@ func (e *Exec) equal(t types.Type, x, y Value) *T {
 		return sym.And(cs...)
 	case Iface:
 		b := y.(Iface)
+		if a.T == nil || b.T == nil {
+			return sym.And(ifaceNil(a), ifaceNil(b))
+		}
+		a, b = e.res(a).(Iface), e.res(b).(Iface)
 		if a.T == nil || b.T == nil {
 			return sym.BoolC(a.T == nil && b.T == nil)
 		}
